@@ -120,9 +120,22 @@ func (x *Exec) commitWithFault(op Op, idx int) *Fail {
 		if _, e := x.DB.Begin(true); ErrName(e) != "ErrInvalidMapping" {
 			return mm("[c08] after the failed mmap Begin(true) returned %v, want ErrInvalidMapping", e)
 		}
-		return nil
+		return &Fail{Kind: "error", At: idx, Op: op.String(), Msg: "injected " + x.Fault.kindName() + " failure: database unmapped until reopen"}
 	}
-	return x.boundary(kind)
+	if f := x.boundary(kind); f != nil {
+		return f
+	}
+	what := "state unchanged"
+	if metaWritten {
+		what = "meta was complete: transaction present in memory and on disk"
+	}
+	// not a failure: reported as the observation class of this transition
+	return &Fail{Kind: "error", At: idx, Op: op.String(), Msg: "injected " + x.Fault.kindName() + " failure (" + x.Fault.Shape + "): " + what}
+}
+
+func (f *Fault) kindName() string {
+	names := map[bolt.VerifOp]string{bolt.VerifWrite: "write", bolt.VerifFdatasync: "fdatasync", bolt.VerifFsync: "fsync", bolt.VerifTruncate: "truncate", bolt.VerifMmap: "mmap"}
+	return names[f.Kind]
 }
 
 func (f *Fault) describe() string {
